@@ -257,20 +257,85 @@ def thorough():
 # implementation side
 # --------------------------------------------------------------------------
 
-def _wsgi(case, st, handler_of, ctype=None):
+DEFAULT_MEMFILE = 100 * 1024
+
+
+def make_app(conf, buf, maxb):
     from ombott import Ombott
-    cfg = dict(max_memfile_size=case['buf'], max_body_size=case.get('maxb'))
-    conf = case.get('conf', 'ctor')
+    cfg = dict(max_memfile_size=buf, max_body_size=maxb)
     if conf == 'ctor':
-        app = Ombott(cfg)
-    elif conf == 'setup':                       # the documented way to (re)configure an existing application
+        return Ombott(cfg)
+    if conf == 'setup':                         # the documented way to (re)configure an existing application
         app = Ombott()
         app.setup(cfg)
-    else:                                       # setup() overriding what the constructor was given
-        app = Ombott(dict(max_memfile_size=case['buf'] + 3, max_body_size=1))
+        return app
+    if conf == 'setup_over':                    # setup() overriding what the constructor was given
+        app = Ombott(dict(max_memfile_size=buf + 3, max_body_size=1))
         app.setup(cfg)
-    seen = {}
-    app.route('/b', method='POST', callback=handler_of(app, seen))
+        return app
+    assert conf == 'default' and buf == DEFAULT_MEMFILE and maxb is None
+    return Ombott()                             # no configuration at all: 100 KiB threshold, no limit
+
+
+CTYPES = {'urlencoded': 'application/x-www-form-urlencoded', 'json': 'application/json', None: None,
+          'multipart': 'multipart/form-data; boundary=BnD'}
+
+
+def count_items(d):
+    return sum(len(v) if isinstance(v, list) else 1 for v in d.values())
+
+
+def access(rq, case, seen):
+    """what the application does with the request; returns the bytes it answers with"""
+    for op in case.get('pre', ()):
+        if op == 'body_first':                  # an earlier partial read of Request.body
+            rq.body.read(2)
+        elif op == 'copy_after':                # read, then go on with a copy of the request
+            rq.body.read()
+            rq = rq.copy()
+        elif op == 'second':                    # a second Request object over the same environ
+            rq = type(rq)(rq.environ, config=rq.config)
+    if case['kind'] == 'body':
+        b = rq.body
+        seen['spilled'] = not isinstance(b, BytesIO)
+        c1 = b.read()
+        seen['stable'] = c1 == rq.body.read()
+        return c1
+    if case['kind'] == 'budget':
+        f = rq.forms
+        files = rq.files
+        seen['n'] = count_items(f) + count_items(files)
+        lens, types = [], set()
+        for v in files.values():
+            for fu in (v if isinstance(v, list) else [v]):
+                types.add(type(fu.file).__name__)
+                total = 0
+                while True:                     # block-wise read through BytesIOProxy
+                    blk = fu.file.read(7)
+                    if not blk:
+                        break
+                    total += len(blk)
+                lens.append(total)
+        seen['file_lens'] = sorted(lens)
+        seen['file_types'] = sorted(types)
+        return b'ok'
+    if case['via'] == 'gbs' or case.get('inner') == 'gbs':
+        t1 = rq._get_body_string()
+        seen['stable'] = t1 == rq._get_body_string()
+        return t1
+    if case['ctype'] == 'json' and case.get('inner') != 'forms_json':
+        v = rq.json
+        seen['len'] = len(v['a']) + 8 if v else 0
+    else:                                       # urlencoded, or JSON through POST / forms
+        f = rq.forms
+        if case['ctype'] == 'json':
+            seen['len'] = len(f['a']) + 8 if len(f) else 0
+        else:
+            seen['len'] = sum(len(k) + 1 + len(v) for k, v in f.items()) if len(f) else 0
+    return b'parsed'
+
+
+def make_environ(case, st, ctype):
     env = environ('POST', '/b', **{'wsgi.input': st})
     if case.get('chunked'):
         env['HTTP_TRANSFER_ENCODING'] = 'chunked'
@@ -278,56 +343,101 @@ def _wsgi(case, st, handler_of, ctype=None):
         env['CONTENT_LENGTH'] = str(case['cl'])
     if ctype:
         env['CONTENT_TYPE'] = ctype
+    return env
+
+
+def app_with_handler(conf, buf, maxb):
+    app = make_app(conf, buf, maxb)
+    holder = {}
+
+    def handler():
+        return access(app.request, holder['case'], holder['seen'])
+    app.route('/b', method='POST', callback=handler)
+    return app, holder
+
+
+def call_wsgi(app, holder, case, st, ctype=None):
+    seen = {}
+    holder.update(case=case, seen=seen)
+    env = make_environ(case, st, ctype)
     out = {}
 
     def start_response(status, headers, exc_info=None):
         out['status'] = status
     content = b''.join(app(env, start_response))
-    return int(out['status'].split()[0]), content, seen, env['wsgi.errors'].getvalue()
+    return finish(case, st, int(out['status'].split()[0]), content, seen, env['wsgi.errors'].getvalue())
 
 
-CTYPES = {'urlencoded': 'application/x-www-form-urlencoded', 'json': 'application/json', None: None}
+def finish(case, st, code, content, seen, errs):
+    """the observation of one request, from the status (or escaped exception) and what the handler saw"""
+    if errs:
+        return dict(status='traceback_on_wsgi_errors', code=code)
+    if code != 200:
+        st_name = {400: 'parse_error', 413: 'too_large', -1: 'bare_error'}.get(code, 'http_%d' % code)
+        if case['kind'] == 'body':
+            return dict(status=st_name, reqs=st.log, pos=st.pos)
+        return dict(status=st_name) if case['kind'] == 'budget' else dict(status=st_name, pos=st.pos)
+    if seen.get('stable') is False:
+        return dict(status='unstable')
+    if case['kind'] == 'body':
+        return dict(status='ok', body=list(content), spilled=seen['spilled'], reqs=st.log, pos=st.pos)
+    if case['kind'] == 'budget':
+        return dict(status='ok', n=seen.get('n'), file_types=seen.get('file_types'), file_lens=seen.get('file_lens'))
+    if case['via'] == 'gbs' or case.get('inner') == 'gbs':
+        return dict(status='ok', text=list(content), pos=st.pos)
+    return dict(status='ok', parsed_len=seen.get('len'), pos=st.pos)
+
+
+def call_request(case, st, ctype=None):
+    """a Request object used directly (no application): config = DefaultConfig(...) carries the errors_map,
+    a plain dict does not (RequestConfig's default {}): then the bare exceptions escape"""
+    from ombott import Request, DefaultConfig, HTTPError
+    from ombott.request_pkg.errors import RequestError
+    cfg = dict(max_memfile_size=case['buf'], max_body_size=case.get('maxb'))
+    rq = Request(make_environ(case, st, ctype), config=DefaultConfig(cfg) if case['rconf'] == 'default_config' else cfg)
+    seen = {}
+    try:
+        content = access(rq, case, seen)
+        code = 200
+    except HTTPError as e:
+        content, code = b'', e.status_code
+    except RequestError:
+        content, code = b'', -1
+    return finish(case, st, code, content, seen, '')
+
+
+def run_seq(case):
+    apps = [app_with_handler(*a) for a in case['apps']]
+    obs = []
+    for it in case['items']:
+        app, holder = apps[it['app']]
+        obs.append(call_wsgi(app, holder, it, FragStream(it['data'], it['sched']), CTYPES[it.get('ctype')]))
+    return dict(kind='seq', items=obs)
 
 
 def run_impl(case):
     from ombott.request_pkg.errors import BodySizeError, BodyParsingError
+    if case['kind'] == 'seq':
+        return run_seq(case)
     if case['kind'] == 'budget':
         from ombott.request_pkg.multipart import MultipartMarkup, FieldStorage
         body, _ = build_multipart(case['parts'])
-        mk = MultipartMarkup(b'BnD')
-        mk.parse(body)
-        if mk.error is not None:
-            return dict(status='markup_error')
-        ms = mk.markups
-        triples = []
-        for i in range(1, len(ms) - 1, 2):
-            (hn, (hs, he)), (dn, (ds, de)) = ms[i], ms[i + 1]
-            assert hn == 'headers' and dn == 'data'
-            triples.append([he - hs, de - ds, 1 if case['parts'][(i - 1) // 2]['filename'] is not None else 0])
         if case['via'] == 'iter_items':
+            mk = MultipartMarkup(b'BnD')
+            mk.parse(body)
+            if mk.error is not None:
+                return dict(status='markup_error')
             n = 0
             try:
-                for it in FieldStorage.iter_items(BytesIO(body), ms, case['buf']):
+                for it in FieldStorage.iter_items(BytesIO(body), mk.markups, case['buf']):
                     n += 1
             except BodySizeError:
-                return dict(status='too_large', n=n, triples=triples)
-            return dict(status='ok', n=n, triples=triples)
-
-        def handler_of(app, seen):
-            def handler():
-                f = app.request.forms
-                files = app.request.files
-                seen['n'] = len(f) + len(files)
-                seen['file_types'] = sorted(set(type(v.file).__name__ for v in files.values()))
-                return 'ok'
-            return handler
-        st = FragStream(body, [])
-        env_cl = dict(case, cl=len(body), chunked=False, maxb=None)
-        code, content, seen, errs = _wsgi(env_cl, st, handler_of, 'multipart/form-data; boundary=BnD')
-        if code == 200:
-            return dict(status='ok', n=seen.get('n'), triples=triples, file_types=seen.get('file_types'))
-        return dict(status={413: 'too_large'}.get(code, 'http_%d' % code), triples=triples)
-
+                return dict(status='too_large', n=n)
+            return dict(status='ok', n=n)
+        st = FragStream(body, case.get('sched', []))
+        c2 = dict(case, cl=len(body), chunked=False, maxb=None)
+        app, holder = app_with_handler(case.get('conf', 'ctor'), case['buf'], None)
+        return call_wsgi(app, holder, c2, st, CTYPES['multipart'])
     st = FragStream(case['data'], case['sched'])
     if case['via'] == 'func':
         from ombott.request_pkg.body_mixin import _body_read
@@ -341,45 +451,10 @@ def run_impl(case):
         spilled = not isinstance(body, BytesIO)
         body.seek(0)
         return dict(status='ok', body=list(body.read()), spilled=spilled, reqs=st.log, pos=st.pos)
-    if case['via'] == 'wsgi':
-        def handler_of(app, seen):
-            def handler():
-                b = app.request.body
-                seen['spilled'] = not isinstance(b, BytesIO)
-                seen['type'] = type(b).__name__
-                return b.read()
-            return handler
-        code, content, seen, errs = _wsgi(case, st, handler_of)
-        if errs:
-            return dict(status='traceback_on_wsgi_errors', code=code)
-        if code == 200:
-            return dict(status='ok', body=list(content), spilled=seen['spilled'], reqs=st.log, pos=st.pos)
-        return dict(status={400: 'parse_error', 413: 'too_large'}.get(code, 'http_%d' % code), reqs=st.log, pos=st.pos)
-    if case['via'] == 'gbs':
-        def handler_of(app, seen):
-            def handler():
-                return app.request._get_body_string()
-            return handler
-    else:
-        def handler_of(app, seen):
-            def handler():
-                rq = app.request
-                if case['ctype'] == 'json':
-                    v = rq.json
-                    seen['len'] = len(v['a']) + 8 if v else 0
-                else:
-                    f = rq.forms
-                    seen['len'] = sum(len(k) + 1 + len(v) for k, v in f.items()) if len(f) else 0
-                return 'parsed'
-            return handler
-    code, content, seen, errs = _wsgi(case, st, handler_of, CTYPES[case['ctype']])
-    if errs:
-        return dict(status='traceback_on_wsgi_errors', code=code)
-    if code == 200:
-        if case['via'] == 'gbs':
-            return dict(status='ok', text=list(content), pos=st.pos)
-        return dict(status='ok', parsed_len=seen.get('len'), pos=st.pos)
-    return dict(status={400: 'parse_error', 413: 'too_large'}.get(code, 'http_%d' % code), pos=st.pos)
+    if case['via'] == 'request':
+        return call_request(case, st, CTYPES[case.get('ctype')])
+    app, holder = app_with_handler(case.get('conf', 'ctor'), case['buf'], case['maxb'])
+    return call_wsgi(app, holder, case, st, CTYPES[case.get('ctype')])
 
 
 def encode(case):
@@ -597,3 +672,19 @@ MANIFEST = dict(
               'correspondence',
     design_ref='DESIGN.md section 4, C13',
 )
+
+
+# --------------------------------------------------------------------------
+# dev-only: line coverage of the anchored functions  (VERIF_COVERAGE=1 ./check C13 --no-coq)
+# --------------------------------------------------------------------------
+COVERAGE_TARGETS = {
+    'ombott/request_pkg/body_mixin.py': ['_iter_body', '_iter_chunked', '_body_read', 'BodyMixin._body',
+                                         'BodyMixin.body', 'BodyMixin.content_length', 'BodyMixin.chunked',
+                                         'BodyMixin._get_body_string', 'BodyMixin.json', 'BodyMixin.POST',
+                                         'BodyMixin.forms', 'BodyMixin.files'],
+    'ombott/request_pkg/multipart.py': ['FieldStorage.read', 'FieldStorage.iter_items', 'BytesIOProxy.read'],
+    'ombott/request_pkg/request.py': ['BaseRequest._raise', 'BaseRequest.setup', 'BaseRequest.__new__'],
+    'ombott/ombott.py': ['Ombott.setup', 'Ombott.__init__'],
+}
+from props.bodyA_cov import traced  # noqa: E402
+run_impl = traced(ID, run_impl, COVERAGE_TARGETS)
